@@ -96,7 +96,7 @@ def k_pus(ctx, which, raw, ts_len=0, full=False, fault=None):
     excluded = set(range(32, 48))
     sec_len = 5 if which == "tc" else 7 + ts_len
     doc = documented_errors()
-    it = [(int(fault, 16), ("replay", 0, 0))] if fault else faults(n, excluded, ctx.rng, full, p)
+    it = [(int(fault, 16), ("replay", 8 * n - int(fault, 16).bit_length(), 0))] if fault else faults(n, excluded, ctx.rng, full, p)
     cnt = 0
     for mask, (ftype, pos, L) in it:
         cnt += 1
@@ -122,7 +122,7 @@ def k_pus(ctx, which, raw, ts_len=0, full=False, fault=None):
     ctx.table("packets_fully_enumerated", which)
 
 
-def k_pdu(ctx, kind, cfg, p, full=False, fault=None):
+def k_pdu(ctx, kind, cfg, p, full=False, fault=None, decoder=None):
     X = C.lib()
     raw = C.ref_octets(kind, cfg, p)
     base = {"k": "pdu", "kind": kind, "cfg": cfg, "p": p}
@@ -139,18 +139,18 @@ def k_pdu(ctx, kind, cfg, p, full=False, fault=None):
     hl = R.header_len(cfg["idw"], cfg["seqw"])
     excluded = set(range(8, 32)) | {6}
     doc = documented_errors()
-    it = [(int(fault, 16), ("replay", 0, 0))] if fault else faults(n, excluded, ctx.rng, full, raw)
+    it = [(int(fault, 16), ("replay", 8 * n - int(fault, 16).bit_length(), 0))] if fault else faults(n, excluded, ctx.rng, full, raw)
     cnt = 0
     for mask, (ftype, pos, L) in it:
         cnt += 1
         q = _apply(raw, mask)
-        name, d = decs[cnt & 1]
+        name, d = decs[cnt & 1] if decoder is None else [x for x in decs if x[0] == decoder][0]
         ok, res = attempt(d, q)
         region = C.region_of(kind, cfg, p, raw, pos // 8)
         if ok and res is not None:
-            ctx.fail("fault_rejected", "corrupted_packet_accepted", f"{kind}/{name}/{region}", dict(base, fault=hex(mask)), fault_kind=[ftype, pos, L])
+            ctx.fail("fault_rejected", "corrupted_packet_accepted", f"{kind}/{name}/{region}", dict(base, fault=hex(mask), decoder=name), fault_kind=[ftype, pos, L])
         elif not ok and not isinstance(res, doc):
-            ctx.fail("fault_rejected", "undocumented_error", f"{kind}/{name}/{exc_sig(res)}", dict(base, fault=hex(mask)), error=repr(res))
+            ctx.fail("fault_rejected", "undocumented_error", f"{kind}/{name}/{exc_sig(res)}", dict(base, fault=hex(mask), decoder=name), error=repr(res))
         else:
             ctx.table(f"faults_by_region/{kind}", region)
             ctx.table("rejection_class", f"{kind}:{'None' if ok else type(res).__name__}")
